@@ -429,6 +429,9 @@ def falsified(text, flags, rec=None):
         if "#inf" in blob or "#sup" in blob:
             keys.add("Hyp_nonempty_dom")
         doms = set(re.findall(r"\b(__dom___(?:max|min)_\w+?)\(", rec["result"]))
+        # the chain may reuse an existing domain predicate (`__dom_sel`): it is the one inside the `#min` of the
+        # `__min_.._dom___max_..` rule
+        doms |= set(re.findall(r"__dom___(?:max|min)_\w+?\(\w+\) :- \w+ = #(?:min|max) \{ \w+: (\w+)\(", rec["result"]))
         if doms:
             try:
                 import clingo
